@@ -515,13 +515,17 @@ theorem endBlock_NS {v : VS} (h : Nat) (hn : NS v) : NS (v.endBlock h) := by
     · exact status_NS true false v.jailed v.ubHeight hn
     · exact hn
 
-theorem matureStep_NS {v : VS} (h : Nat) (hn : NS v) : NS (if v.bonded then v.endBlock h else (v.endBlock h).matureVal) := by
+theorem matureStep_NS {v : VS} (h H : Nat) (hn : NS v) :
+    NS (if v.bonded then v.endBlock h else (v.endBlock h).matureValTo H) := by
   split
   · exact endBlock_NS h hn
-  · unfold VS.matureVal
+  · unfold VS.matureValTo
     split
+    · unfold VS.matureVal
+      split
+      · exact endBlock_NS h hn
+      · exact status_NS _ true _ _ (endBlock_NS h hn)
     · exact endBlock_NS h hn
-    · exact status_NS _ true _ _ (endBlock_NS h hn)
 
 theorem alloc_NS {v : VS} (amt : Nat) (hn : NS v) : NS (v.alloc amt) := by
   obtain ⟨_, _, _, a4, a5, a6⟩ := alloc_fields v amt
@@ -689,10 +693,10 @@ theorem exec_NS {c : Cfg} (hg : good c = true) {s s' : State} {o : Op} {w : Nat}
     simp only [State.exec] at h
     cases h
     exact endBlock_NS _ hn
-  | mature =>
+  | mature H =>
     simp only [State.exec] at h
     cases h
-    exact matureStep_NS _ hn
+    exact matureStep_NS _ H hn
   | jail v =>
     simp only [State.exec] at h
     split at h
